@@ -1,0 +1,13 @@
+//go:build verif
+
+package ociauth
+
+// ParseWWWAuthenticateForVerif exposes parseWWWAuthenticate to the
+// verification harness (/verif, properties C10 and C11).
+func ParseWWWAuthenticateForVerif(header string) (scheme string, params map[string]string, ok bool) {
+	h := parseWWWAuthenticate(header)
+	if h == nil {
+		return "", nil, false
+	}
+	return h.scheme, h.params, true
+}
